@@ -132,11 +132,17 @@ impl Scenario for C05 {
             Tier::Thorough => 40_000_000,
         }
     }
-    fn generate(&self, rng: &mut Prng, _tier: Tier) -> Spec {
+    fn generate(&self, rng: &mut Prng, tier: Tier) -> Spec {
+        if rng.chance(1, if tier == Tier::Quick { 2_500 } else { 40_000 }) {
+            return gen_giant_fill_spec(rng);
+        }
         gen_history_spec(rng, "C05", true, 64)
     }
 
     fn execute(&self, spec: &Spec, st: &mut Stats) -> RunEnd {
+        if spec.variant == "giant_fill" {
+            return run_giant_fill(spec, st);
+        }
         let kind = spec.kind.expect("kind");
         let mut g = match build(spec, false) {
             Ok(g) => g,
@@ -299,4 +305,189 @@ impl Scenario for C05 {
             "probe:long_haul",
         ]
     }
+}
+
+
+// ------------------------------------------------------------------------------------------
+// One request of 2 GiB / 4 GiB and a little more: lengths that no longer fit in 31 / 32 bits.
+// The destination is 4 GiB of VIRTUAL address space backed by one 4 MiB piece of memory mapped
+// over and over (the pages alias each other), so the run costs 4 MiB, not 4 GiB. What is checked:
+// the final content of the window (= the last 4 MiB the call wrote, tail included) and where the
+// generator stands afterwards, against a twin that makes the documented calls one by one.
+// ------------------------------------------------------------------------------------------
+
+const SEG: usize = 4 << 20;
+
+struct Aliased {
+    base: *mut u8,
+    total: usize,
+}
+
+impl Aliased {
+    fn new(len: usize) -> Option<Aliased> {
+        unsafe {
+            let fd = libc::memfd_create(b"rngsim-window\0".as_ptr() as *const libc::c_char, 0);
+            if fd < 0 {
+                return None;
+            }
+            if libc::ftruncate(fd, SEG as libc::off_t) != 0 {
+                libc::close(fd);
+                return None;
+            }
+            let total = (len + SEG - 1) / SEG * SEG;
+            let base = libc::mmap(std::ptr::null_mut(), total, libc::PROT_NONE, libc::MAP_PRIVATE | libc::MAP_ANONYMOUS | libc::MAP_NORESERVE, -1, 0);
+            if base == libc::MAP_FAILED {
+                libc::close(fd);
+                return None;
+            }
+            let mut off = 0usize;
+            while off < total {
+                let p = libc::mmap((base as *mut u8).add(off) as *mut libc::c_void, SEG, libc::PROT_READ | libc::PROT_WRITE, libc::MAP_SHARED | libc::MAP_FIXED, fd, 0);
+                if p == libc::MAP_FAILED {
+                    libc::munmap(base, total);
+                    libc::close(fd);
+                    return None;
+                }
+                off += SEG;
+            }
+            libc::close(fd);
+            Some(Aliased { base: base as *mut u8, total })
+        }
+    }
+}
+
+impl Drop for Aliased {
+    fn drop(&mut self) {
+        unsafe {
+            libc::munmap(self.base as *mut libc::c_void, self.total);
+        }
+    }
+}
+
+fn gen_giant_fill_spec(rng: &mut Prng) -> Spec {
+    let mut spec = Spec { prop: "C05".into(), variant: "giant_fill".into(), ..Default::default() };
+    let kind = pick_det_kind(rng);
+    spec.kind = Some(kind);
+    spec.seed = Some(gen_seed(rng, kind));
+    spec.pre = rng.below(pre_range(kind).min(40) + 1) as u32;
+    let base: u64 = if rng.chance(2, 3) { 1 << 32 } else { 1 << 31 };
+    let extra = *rng.pick(&[0u64, 8, 16, 24, 3, 5, 13, 64, 100]);
+    // aux: length, offset of the destination from a 16-aligned address
+    spec.aux = vec![base + extra, rng.below(16)];
+    spec
+}
+
+fn run_giant_fill(spec: &Spec, st: &mut Stats) -> RunEnd {
+    let kind = spec.kind.expect("kind");
+    st.evals += 1;
+    let n = spec.aux[0] as usize;
+    let off = spec.aux[1] as usize % 16;
+    let mut g = match build(spec, false) {
+        Ok(g) => g,
+        Err(e) => return e,
+    };
+    crate::gens::set_place(spec.place.wrapping_add(2));
+    let twin = build(spec, false);
+    crate::gens::set_place(spec.place);
+    let mut twin = match twin {
+        Ok(g) => g,
+        Err(e) => return e,
+    };
+    let native32 = kind.word_bits() == 32;
+    for _ in 0..spec.pre {
+        let r = guard(|| if native32 { (g.next_u32() as u64, twin.next_u32() as u64) } else { (g.next_u64(), twin.next_u64()) });
+        if let Err(SutFail::Panic(m)) = r {
+            return sut_panic("pre", &m);
+        }
+    }
+    let win = match Aliased::new(n + 16) {
+        Some(w) => w,
+        None => return RunEnd::Discard("no_aliased_mapping".into()),
+    };
+    st.count("probe:giant_fill");
+    // the call under test
+    let dest: &mut [u8] = unsafe { std::slice::from_raw_parts_mut(win.base.add(off), n) };
+    let gm = g.as_mut();
+    if let Err(e) = guard(|| gm.fill_bytes(dest)) {
+        return match e {
+            SutFail::Panic(m) => sut_panic("fill_bytes", &m),
+            SutFail::ClockAbort => RunEnd::Discard("clock_abort".into()),
+        };
+    }
+    // what the window must hold now: byte o of the request lives at (off + o) % SEG; later bytes overwrite
+    // earlier ones. The twin makes the calls the documented composition consists of.
+    let mut expect = vec![0u8; SEG];
+    let mut o = 0usize;
+    let block = matches!(kind, Kind::Hc128 | Kind::Isaac | Kind::Isaac64);
+    let tw = twin.as_mut();
+    let r = guard(|| {
+        // only the last SEG bytes of the request survive in the window: earlier ones are just consumed
+        let keep_from = n.saturating_sub(SEG + 16);
+        let mut put = |bytes: &[u8], o: &mut usize| {
+            if *o + bytes.len() <= keep_from {
+                *o += bytes.len();
+                return;
+            }
+            for b in bytes {
+                if *o < n {
+                    expect[(off + *o) % SEG] = *b;
+                    *o += 1;
+                }
+            }
+        };
+        if block {
+            // first n little-endian bytes of the next native words
+            while o < n {
+                if native32 {
+                    put(&tw.next_u32().to_le_bytes(), &mut o);
+                } else {
+                    put(&tw.next_u64().to_le_bytes(), &mut o);
+                }
+            }
+        } else {
+            for _ in 0..n / 8 {
+                put(&tw.next_u64().to_le_bytes(), &mut o);
+            }
+            let tail = n % 8;
+            if tail > 4 {
+                put(&tw.next_u64().to_le_bytes()[..tail], &mut o);
+            } else if tail > 0 {
+                put(&tw.next_u32().to_le_bytes()[..tail], &mut o);
+            }
+        }
+    });
+    if let Err(SutFail::Panic(m)) = r {
+        return sut_panic("twin", &m);
+    }
+    let got: &[u8] = unsafe { std::slice::from_raw_parts(win.base, SEG) };
+    st.log.bytes(&got[..64]);
+    st.sig(&[kind.id(), 99, (n >> 31) as u64, (n % 8) as u64]);
+    if let Some(p) = (0..SEG).find(|p| got[*p] != expect[*p]) {
+        return viol(
+            "C05/value_mismatch",
+            format!("{}:giant_fill", kind.name()),
+            format!(
+                "{}: fill_bytes({}) (= 2^{} + {}) into a destination whose pages alias one 4 MiB window: the window differs from what the documented composition writes last, first at window offset {} (got {:#04x}, expected {:#04x})",
+                kind.name(), n, if n >> 32 != 0 { 32 } else { 31 }, n & 0x7fff_ffff & !(1usize << 31), p, got[p], expect[p]
+            ),
+        );
+    }
+    // and the generator stands where the composition leaves it
+    for i in 0..4 {
+        let r = guard(|| if native32 { (g.next_u32() as u64, twin.next_u32() as u64) } else { (g.next_u64(), twin.next_u64()) });
+        match r {
+            Ok((a, b)) => {
+                if a != b {
+                    return viol(
+                        "C05/value_mismatch",
+                        format!("{}:giant_fill", kind.name()),
+                        format!("{}: after fill_bytes({}) native output #{} is {:#x}, the word stream continues with {:#x}", kind.name(), n, i, a, b),
+                    );
+                }
+            }
+            Err(SutFail::Panic(m)) => return sut_panic("after", &m),
+            Err(_) => return RunEnd::Discard("clock_abort".into()),
+        }
+    }
+    RunEnd::Ok
 }
